@@ -46,6 +46,7 @@ void c01_case(Ctx &c) {
     for (int i = 0; i < npara; i++) {
       CO_PARA *p = (CO_PARA *)s.alloc(sizeof(CO_PARA), "para-ctl", false); uint32_t sz = 1 + c.t.below(64);
       p->Offset = off; p->Size = sz; p->Start = s.alloc(sz, "para-ram"); p->Default = s.alloc(sz, "para-def", false); p->Type = (CO_NMT_RESET)(1 + c.t.below(2)); p->Ident = 0; p->Value = c.t.coin() ? CO_PARA___E : 0; off += sz; paras.push_back(p);
+      if (HAS(25) && npara >= 3 && i + 1 == 2) { c.cls("parameter-object-with-a-missing-sub-index"); continue; }   // an optional sub-index in the middle is absent (sub-index 0 still names the highest one)
       s.add(CO_KEY(0x1010, i + 1, CO_OBJ_____RW), CO_TPARA_STORE, (CO_DATA)p);
       if (HAS(6)) s.add(CO_KEY(0x1011, i + 1, CO_OBJ_____RW), CO_TPARA_RESTORE, (CO_DATA)p);
     }
